@@ -277,3 +277,47 @@ def tables_touched(repo: Repo, fi: FuncInfo) -> Set[str]:
 
 def gt_name(repo: Repo, var: str) -> str:
     return table_defs(repo)[var].name
+
+
+def tables_bound_at(repo: Repo, fi: FuncInfo, name: str, g) -> Optional[List[str]]:
+    """
+    Tables that the local `name` holds at statement `g` (a GStmt): the table
+    of the closest preceding `name = <table>.get*(...)`; follows one level of
+    `x = name.get(k)` / `x = name[k]` / `x = name.setdefault(k, ...)` nesting.
+    """
+    from .astx import linear
+
+    lin = linear(fi.node)
+    best = None
+    for u in table_uses(repo, fi):
+        if u.bound != name or u.method not in ("get", "get_or_insert"):
+            continue
+        try:
+            gu = lin.of(u.call)
+        except AnalysisError:
+            continue
+        if gu.index < g.index and (best is None or gu.index > best[0]):
+            best = (gu.index, list(u.tables))
+    # a later plain re-assignment of the name (not from a table) kills the binding
+    last_other = -1
+    nested = None
+    for x in lin.stmts:
+        if x.index >= g.index:
+            break
+        n = x.node
+        if isinstance(n, ast.Assign) and len(n.targets) == 1 and isinstance(n.targets[0], ast.Name) and n.targets[0].id == name:
+            is_table = any(u.call is n.value for u in table_uses(repo, fi))
+            if not is_table:
+                last_other = x.index
+                v = n.value
+                base = None
+                if isinstance(v, ast.Call) and isinstance(v.func, ast.Attribute) and v.func.attr in ("get", "setdefault"):
+                    base = v.func.value
+                elif isinstance(v, ast.Subscript):
+                    base = v.value
+                nested = (x, base) if isinstance(base, ast.Name) else None
+    if best is not None and best[0] > last_other:
+        return best[1]
+    if nested is not None and nested[0].index == last_other:
+        return tables_bound_at(repo, fi, nested[1].id, nested[0])
+    return None
